@@ -2,6 +2,9 @@ import CfdpVerif.Model.World
 import CfdpVerif.Lemmas.Monad
 import CfdpVerif.Lemmas.InvDestQueue
 import CfdpVerif.Props.C15
+import CfdpVerif.Lemmas.SafeDest
+import CfdpVerif.Lemmas.SafeSource
+import CfdpVerif.Props.C14
 /-!
 # C10 — handlers fail only with protocol exceptions and only when the caller is at fault
 
@@ -10,9 +13,14 @@ PDU it rejects leaves the whole handler state — state, step, progress, queue, 
 private field — unchanged (`C10_*_rejected_pdu_changes_nothing`); the exceptions it raises are
 protocol exceptions; `UnretrievedPdusToBeSent` is raised only at sites guarded by a non-empty queue
 / positive packets-ready counter.
-NOT proved here: the absence of internal errors for every reachable state (`no_internal_error` of
-DESIGN.md §6) — that part of the property is explored by the malformed-stream suites and the model
-correspondence (the model raises at every `assert`/`None` dereference site of the Python).
+`C10_dest_no_internal_error*`: **no internal error, for every history** (destination handler).  The
+model raises at every `assert` / `None` dereference / `ValueError` site of the Python; `Dest.Safe.DInv`
+is an invariant of the state machine (true of a new handler, preserved by every public call and by
+`set_handler`, whether the call returns or raises), and from a state satisfying it no public call
+raises an assertion, attribute, type, key, value or struct error — provided a NAK PDU with the
+inbound PDU's header fits the sender's `max_packet_len` (`Fits`; where it does not, the real code
+leaks `ValueError`: the listed finding `nak-base-exceeds-max-packet-len`).  Proof: one Hoare triple
+per model method (`Lemmas/SafeDest.lean`, `Std.Do` verification conditions closed by `grind`).
 -/
 set_option linter.unusedSimpArgs false
 set_option linter.unusedVariables false
@@ -95,5 +103,310 @@ theorem C10_exception_classes :
     Err.isProtocol .assertionError = false ∧ Err.isProtocol .attributeError = false ∧
     Err.isProtocol .typeError = false ∧ Err.isProtocol .keyError = false ∧
     Err.isProtocol .valueError = false ∧ Err.isProtocol .structError = false := by decide
+
+/-! ### no internal error, for every reachable state and every input (destination handler) -/
+
+open Dest.Safe in
+/-- a handler as constructed satisfies the invariant (any fault handler table that has an entry
+for each condition the handler declares — `set_handler` cannot remove entries) -/
+theorem C10_dest_invariant_init (faults : List (Nat × Nat)) (hf : FaultsOk faults) :
+    DInv ({ faults := faults } : Dest.DestSt) := by
+  simp only [DInv, Core, TimerOk]
+  refine ⟨⟨hf, ?_⟩, ?_⟩ <;> simp
+
+open Dest.Safe in
+theorem C10_default_table_ok : FaultsOk defaultFaultTable := by
+  simp only [FaultsOk]; decide
+
+/-- outcome of a call as the caller sees it: it returned, or it raised `e` -/
+def raised {σ α : Type} : EStateM.Result Err σ α → Option Err
+  | .ok _ _ => none
+  | .error e _ => some e
+
+/-- a raised exception is not one of the internal errors -/
+def notInternal (o : Option Err) : Prop := ∀ e, o = some e → e.isInternal = false
+
+open Dest.Safe in
+/-- **`state_machine`**: from every state satisfying the invariant and for every PDU (of any type
+and content, from any sender, in any step) the call returns or raises an exception that is not an
+internal error, and the invariant holds afterwards -/
+theorem C10_dest_no_internal_error (env : Dest.Env) (pkt : Option Pdu) (s : Dest.DestSt)
+    (hi : DInv s) (hf : Fits env pkt) :
+    notInternal (raised (Dest.stateMachine env pkt s)) ∧ DInv (stateOf (Dest.stateMachine env pkt s)) := by
+  have := triple_elim _ _ _ _ (stateMachine_spec env pkt hf) s hi
+  cases h : Dest.stateMachine env pkt s <;> simp [h, raised, notInternal, stateOf] at this ⊢
+  · exact this
+  · exact ⟨this.2, this.1⟩
+
+open Dest.Safe in
+theorem C10_dest_get_next_packet (s : Dest.DestSt) (hi : DInv s) :
+    notInternal (raised (Dest.getNextPacket s)) ∧ DInv (stateOf (Dest.getNextPacket s)) := by
+  have := triple_elim _ _ _ _ getNextPacket_spec s hi
+  cases h : Dest.getNextPacket s <;> simp [h, raised, notInternal, stateOf] at this ⊢
+  · exact this
+  · exact ⟨this.2, this.1⟩
+
+open Dest.Safe in
+theorem C10_dest_cancel_request (env : Dest.Env) (tid : Tid) (s : Dest.DestSt) (hi : DInv s) :
+    notInternal (raised (Dest.cancelRequest env tid s)) ∧ DInv (stateOf (Dest.cancelRequest env tid s)) := by
+  have := triple_elim _ _ _ _ (cancelRequest_spec env tid) s hi
+  cases h : Dest.cancelRequest env tid s <;> simp [h, raised, notInternal, stateOf] at this ⊢
+  · exact this
+  · exact ⟨this.2, this.1⟩
+
+open Dest.Safe in
+theorem C10_dest_reset (s : Dest.DestSt) (hi : DInv s) :
+    notInternal (raised (Dest.reset s)) ∧ DInv (stateOf (Dest.reset s)) := by
+  have := triple_elim _ _ _ _ reset_spec s hi
+  cases h : Dest.reset s <;> simp [h, raised, notInternal, stateOf] at this ⊢
+  · exact this
+  · exact ⟨this.2, this.1⟩
+
+/-- what the user and the peer can do to a destination handler between two observations -/
+inductive DOp where
+  | sm (pkt : Option Pdu) | get | cancel (tid : Tid) | reset
+  | setHandler (cond code : Nat)        -- `fault_handler.set_handler(cond, code)`
+  | injectReject (e : FsErr)            -- the filestore will refuse the next write with `e`
+
+/-- one operation: the exception it raised (if any) and the state afterwards -/
+def DOp.run (env : Dest.Env) : DOp → Dest.DestSt → Option Err × Dest.DestSt
+  | .sm pkt, s => (raised (Dest.stateMachine env pkt s), stateOf (Dest.stateMachine env pkt s))
+  | .get, s => (raised (Dest.getNextPacket s), stateOf (Dest.getNextPacket s))
+  | .cancel t, s => (raised (Dest.cancelRequest env t s), stateOf (Dest.cancelRequest env t s))
+  | .reset, s => (raised (Dest.reset s), stateOf (Dest.reset s))
+  | .setHandler c f, s =>
+    match setFaultHandler s.faults c f with
+    | some t => (none, { s with faults := t })
+    | none => (some .valueError, s)       -- `set_handler` of a condition outside the table: documented ValueError of the configuration API (C14), not a handler call
+  | .injectReject e, s => (none, { s with rejects := s.rejects ++ [e] })
+
+/-- the hypotheses on an operation: a PDU whose NAK fits, a rejection of the `OSError` family -/
+def DOp.ok (env : Dest.Env) : DOp → Prop
+  | .sm pkt => Dest.Safe.Fits env pkt
+  | .injectReject e => (Err.ofFs e).isInternal = false
+  | _ => True
+
+theorem lookup_setFaultHandler (t t' : List (Nat × Nat)) (c f k : Nat)
+    (h : setFaultHandler t c f = some t') (hk : t.lookup k ≠ none) : t'.lookup k ≠ none := by
+  unfold setFaultHandler at h
+  split at h
+  · rename_i hc
+    simp at h; subst h
+    rw [C14.lookup_map_set]
+    split
+    · rename_i hkc
+      subst hkc
+      cases hl : t.lookup k with
+      | none => exact absurd hl hk
+      | some v => simp
+    · exact hk
+  · simp at h
+
+open Dest.Safe in
+/-- every operation preserves the invariant, and no operation on the handler raises an internal error -/
+theorem C10_dest_step (env : Dest.Env) (op : DOp) (s : Dest.DestSt) (hi : DInv s) (ho : op.ok env) :
+    DInv (op.run env s).2 ∧ (notInternal (op.run env s).1 ∨ ∃ c f, op = .setHandler c f) := by
+  cases op with
+  | sm pkt => exact ⟨(C10_dest_no_internal_error env pkt s hi ho).2, .inl (C10_dest_no_internal_error env pkt s hi ho).1⟩
+  | get => exact ⟨(C10_dest_get_next_packet s hi).2, .inl (C10_dest_get_next_packet s hi).1⟩
+  | cancel t => exact ⟨(C10_dest_cancel_request env t s hi).2, .inl (C10_dest_cancel_request env t s hi).1⟩
+  | reset => exact ⟨(C10_dest_reset s hi).2, .inl (C10_dest_reset s hi).1⟩
+  | setHandler c f =>
+    refine ⟨?_, .inr ⟨c, f, rfl⟩⟩
+    simp only [DOp.run]
+    cases hset : setFaultHandler s.faults c f with
+    | none => exact hi
+    | some t =>
+      have hl := fun k => lookup_setFaultHandler s.faults t c f k hset
+      simp only [DInv, Core, TimerOk, FaultsOk] at hi ⊢
+      obtain ⟨⟨⟨f1, f2, f3, f4, f5, f6⟩, rest⟩, tm⟩ := hi
+      exact ⟨⟨⟨hl _ f1, hl _ f2, hl _ f3, hl _ f4, hl _ f5, hl _ f6⟩, rest⟩, tm⟩
+  | injectReject e =>
+    refine ⟨?_, .inl (by intro e' h; simp [DOp.run] at h)⟩
+    simp only [DOp.ok] at ho
+    simp only [DOp.run, DInv, Core, TimerOk] at hi ⊢
+    obtain ⟨⟨f1, f2, f3, f4, f5, f6, f7, f8⟩, tm⟩ := hi
+    refine ⟨⟨f1, f2, f3, f4, f5, f6, f7, ?_⟩, tm⟩
+    intro e' he'
+    rcases List.mem_append.mp he' with h | h
+    · exact f8 e' h
+    · simp at h; subst h; exact ho
+
+/-- the states reached by a sequence of operations -/
+def runOps (env : Dest.Env) (s : Dest.DestSt) (ops : List DOp) : Dest.DestSt :=
+  ops.foldl (fun s op => (op.run env s).2) s
+
+open Dest.Safe in
+/-- **No internal error, for every history.**  Start from a new handler (or any state satisfying the
+invariant); let the user and the peer do anything, in any order, any number of times —
+`state_machine` with any PDU or none, `get_next_packet`, `cancel_request`, `reset`, reconfigure the
+fault handler table, let the filestore refuse writes —; then the next call on the handler returns or
+raises an exception that is not an assertion, attribute, type, key, value or struct error. -/
+theorem C10_dest_no_internal_error_all_histories (env : Dest.Env) (s : Dest.DestSt) (hi : DInv s)
+    (ops : List DOp) (hops : ∀ op ∈ ops, op.ok env) (last : DOp) (hl : last.ok env)
+    (hcall : ∀ c f, last ≠ .setHandler c f) :
+    notInternal (last.run env (runOps env s ops)).1 := by
+  have hinv : DInv (runOps env s ops) := by
+    unfold runOps
+    induction ops generalizing s with
+    | nil => exact hi
+    | cons op ops ih =>
+      simp only [List.foldl_cons]
+      apply ih
+      · exact (C10_dest_step env op s hi (hops op (List.mem_cons_self))).1
+      · intro o ho; exact hops o (List.mem_cons_of_mem _ ho)
+  rcases (C10_dest_step env last _ hinv hl).2 with h | ⟨c, f, h⟩
+  · exact h
+  · exact absurd h (hcall c f)
+
+/-- the theorem is not vacuous: a new handler with the default table satisfies the invariant, and
+a Metadata PDU from a configured sender with an ordinary `max_packet_len` satisfies `Fits` -/
+example : Dest.Safe.DInv ({ faults := defaultFaultTable } : Dest.DestSt) :=
+  C10_dest_invariant_init _ C10_default_table_ok
+
+/-! ### no internal error, for every reachable state and every input (source handler) -/
+
+open Source.Safe in
+theorem C10_source_invariant_init (faults : List (Nat × Nat)) (hf : Source.Safe.FaultsOk faults)
+    (prov : Source.SeqProv) (hp : prov.bits = 8 ∨ prov.bits = 16 ∨ prov.bits = 32) (fs : Fs) :
+    SInv ({ faults := faults, prov := prov, fs := fs } : Source.SrcSt) := by
+  simp only [SInv, InStep]
+  refine ⟨hf, hp, ?_⟩
+  simp
+
+theorem C10_source_default_table_ok : Source.Safe.FaultsOk defaultFaultTable := by
+  simp only [Source.Safe.FaultsOk]; decide
+
+/-- what the user and the peer can do to a source handler -/
+inductive SOp where
+  | put (req : Source.PutReq) | sm (pkt : Option Pdu) | get | cancel (tid : Tid) | reset
+  | setHandler (cond code : Nat)
+  | otherTransaction                     -- another handler took a number from the shared provider
+
+def SOp.run (env : Source.Env) : SOp → Source.SrcSt → Option Err × Source.SrcSt
+  | .put r, s => (raised (Source.putRequest env r s), stateOf (Source.putRequest env r s))
+  | .sm pkt, s => (raised (Source.stateMachine env pkt s), stateOf (Source.stateMachine env pkt s))
+  | .get, s => (raised (Source.getNextPacket s), stateOf (Source.getNextPacket s))
+  | .cancel t, s => (raised (Source.cancelRequest env t s), stateOf (Source.cancelRequest env t s))
+  | .reset, s => (raised (Source.reset s), stateOf (Source.reset s))
+  | .setHandler c f, s =>
+    match setFaultHandler s.faults c f with
+    | some t => (none, { s with faults := t })
+    | none => (some .valueError, s)
+  | .otherTransaction, s =>
+    (none, { s with prov := { s.prov with next := (s.prov.next + 1) % Source.provWrap s.prov.bits } })
+
+/-- hypotheses on an operation in the state it is applied to: a put request names source and
+destination file together (or neither); when the state machine runs, the segment length the
+transaction start derives exists and is positive (`SegFits`) -/
+def SOp.ok (env : Source.Env) (s : Source.SrcSt) : SOp → Prop
+  | .put r => Source.Safe.ReqOk r
+  | .sm _ => Source.Safe.SegFits env s
+  | _ => True
+
+open Source.Safe in
+theorem C10_source_step (env : Source.Env) (op : SOp) (s : Source.SrcSt) (hi : SInv s) (ho : op.ok env s) :
+    SInv (op.run env s).2 ∧ (notInternal (op.run env s).1 ∨ ∃ c f, op = .setHandler c f) := by
+  cases op with
+  | put r =>
+    have := triple_elim _ _ _ _ (putRequest_spec env r ho) s hi
+    cases h : Source.putRequest env r s <;> simp [h, SOp.run, raised, notInternal, stateOf] at this ⊢
+    · exact this
+    · exact this
+  | sm pkt =>
+    have := triple_elim _ _ _ _ (stateMachine_spec env pkt) s ⟨hi, ho⟩
+    cases h : Source.stateMachine env pkt s <;> simp [h, SOp.run, raised, notInternal, stateOf] at this ⊢
+    · exact this
+    · exact this
+  | get =>
+    have := triple_elim _ _ _ _ getNextPacket_spec s hi
+    cases h : Source.getNextPacket s <;> simp [h, SOp.run, raised, notInternal, stateOf] at this ⊢
+    · exact this
+    · exact this
+  | cancel t =>
+    have := triple_elim _ _ _ _ (cancelRequest_spec env t) s hi
+    cases h : Source.cancelRequest env t s <;> simp [h, SOp.run, raised, notInternal, stateOf] at this ⊢
+    · exact this
+    · exact this
+  | reset =>
+    have := triple_elim _ _ _ _ reset_spec s hi
+    cases h : Source.reset s <;> simp [h, SOp.run, raised, notInternal, stateOf] at this ⊢
+    · exact this
+    · exact this
+  | setHandler c f =>
+    refine ⟨?_, .inr ⟨c, f, rfl⟩⟩
+    simp only [SOp.run]
+    cases hset : setFaultHandler s.faults c f with
+    | none => exact hi
+    | some t =>
+      have hl := fun k => lookup_setFaultHandler s.faults t c f k hset
+      simp only [SInv, Source.Safe.FaultsOk, InStep] at hi ⊢
+      obtain ⟨⟨f1, f2⟩, rest⟩ := hi
+      exact ⟨⟨hl _ f1, hl _ f2⟩, rest⟩
+  | otherTransaction =>
+    refine ⟨?_, .inl (by intro e' h; simp [SOp.run] at h)⟩
+    simp only [SOp.run, SInv, InStep] at hi ⊢
+    exact hi
+
+def runSOps (env : Source.Env) (s : Source.SrcSt) (ops : List SOp) : Source.SrcSt :=
+  ops.foldl (fun s op => (op.run env s).2) s
+
+/-- the hypotheses hold for each operation in the state it is applied to -/
+def SOpsOk (env : Source.Env) : Source.SrcSt → List SOp → Prop
+  | _, [] => True
+  | s, op :: rest => op.ok env s ∧ SOpsOk env (op.run env s).2 rest
+
+open Source.Safe in
+/-- **No internal error, for every history** (source handler): after any sequence of put requests,
+state machine calls with any PDU or none, packet retrievals, cancel requests, resets, fault table
+reconfigurations and transactions of other handlers sharing the sequence number provider, the next
+call returns or raises an exception that is not an assertion, attribute, type, key, value or struct
+error. -/
+theorem C10_source_no_internal_error_all_histories (env : Source.Env) (s : Source.SrcSt) (hi : SInv s)
+    (ops : List SOp) (hops : SOpsOk env s ops) (last : SOp) (hl : last.ok env (runSOps env s ops))
+    (hcall : ∀ c f, last ≠ .setHandler c f) :
+    notInternal (last.run env (runSOps env s ops)).1 := by
+  have hinv : SInv (runSOps env s ops) := by
+    unfold runSOps
+    induction ops generalizing s with
+    | nil => exact hi
+    | cons op ops ih =>
+      simp only [List.foldl_cons]
+      exact ih _ (C10_source_step env op s hi hops.1).1 hops.2 (by simpa [runSOps] using hl)
+  rcases (C10_source_step env last _ hinv hl).2 with h | ⟨c, f, h⟩
+  · exact h
+  · exact absurd h (hcall c f)
+
+/-! ### the hypotheses are satisfiable (non-vacuity) -/
+
+/-- a remote entity configuration as the tests use it: `max_packet_len` 256, two-byte ids -/
+def exRemote : RemoteCfg :=
+  { entityId := ⟨2, 2⟩, maxSeg := some 64, maxPkt := 256, closure := false, crc := false, mode := .ack,
+    cks := 3, ackMs := 1000, ackLim := 3, chkLim := 3, disp := false, imm := false, nakMs := 1000, nakLim := 3 }
+
+def exDestEnv : Dest.Env := ⟨⟨⟨1, 2⟩, true, true, true, true, [exRemote], 1000⟩, 0⟩
+
+def exHdr : Hdr := ⟨.toRecv, .ack, false, false, ⟨2, 2⟩, ⟨1, 2⟩, ⟨7, 2⟩⟩
+
+/-- `Fits` holds for a Metadata PDU of that sender -/
+example : Dest.Safe.Fits exDestEnv (some (.md exHdr false 3 10 (some "/a") (some "/b") none)) := by
+  intro pdu h rc hrc
+  cases h
+  simp only [exDestEnv, lookupRemote, Pdu.hdr, exHdr] at hrc
+  have : rc = exRemote := by
+    simp [List.find?, exRemote] at hrc
+    exact hrc.symm
+  subst this
+  decide
+
+/-- `SegFits` holds for a put request to that entity from a handler with a 16-bit provider -/
+example : Source.Safe.SegFits ⟨⟨⟨1, 2⟩, true, true, true, true, [exRemote], 1000⟩, 0⟩
+    ({ putReq := some ⟨⟨2, 2⟩, some "/a", some "/b", none, none, none⟩,
+       p := { remoteCfg := some exRemote } } : Source.SrcSt) := by
+  intro req rc h1 h2 mode large sv dv qv
+  simp at h1 h2
+  subst h1 h2
+  refine ⟨64, ?_, by decide⟩
+  cases large <;> simp [Source.segLenOf, maxFileSegLen, exRemote, Hdr.len, Hdr.fss, Hdr.crcLen]
 
 end Cfdp.C10
